@@ -4,6 +4,7 @@ import (
 	"fmt"
 	"go/constant"
 	"go/token"
+	"go/types"
 	"regexp"
 	"sort"
 	"strings"
@@ -37,6 +38,7 @@ func checkC17(r *core.Run) {
 	c17Recognisers(r, p, "R-C17-sym")
 	c17OneRepresentation(r, p, "R-C17-sym")
 	c17ValueFollowsMembership(r, p, "R-C17-sym")
+	c17DropWhenEmpty(r, p, "R-C17-sym")
 }
 
 // c17RemoveFound: when an output leaves the set, the entry removed from the address's list is the one that
@@ -1003,4 +1005,52 @@ func c17ValueFollowsMembership(r *core.Run, p *core.Program, rule string) {
 	sort.Strings(bad)
 	r.Check(len(inserts) >= 3 && len(adds) >= 1 && len(bad) == 0, rule, key, p.Pos(fn.Pos()), fmt.Sprintf("%d insertions, each with its value added in the same pass", len(inserts)),
 		fmt.Sprintf("%d insertions, %d additions: %s", len(inserts), len(adds), strings.Join(bad, "; ")))
+}
+
+// c17DropWhenEmpty: an address record leaves the index when its last output is removed - decided by the number
+// of outputs it lists, not by its total (with a minimum value of 0, outputs of value 0 are listed: a record
+// whose listed outputs add up to 0 still has outputs).  Every deletion of a record from the balance maps in
+// all_del_utxos is controlled by a test on the length of the record's list or map, and by no test of its total.
+func c17DropWhenEmpty(r *core.Run, p *core.Program, rule string) {
+	fn := p.Func("client/wallet.all_del_utxos")
+	if fn == nil {
+		r.Fail(rule, "drop-when-empty", "-", "all_del_utxos not found")
+		return
+	}
+	n := 0
+	an.Instrs(fn, func(i ssa.Instruction) {
+		c, ok := i.(*ssa.Call)
+		if !ok {
+			return
+		}
+		b, ok := c.Call.Value.(*ssa.Builtin)
+		if !ok || b.Name() != "delete" {
+			return
+		}
+		// a deletion from one of the balance maps: map[...]*OneAllAddrBal
+		mt, ok := c.Call.Args[0].Type().Underlying().(*types.Map)
+		if !ok || !strings.HasSuffix(an.TypeName(mt.Elem()), "OneAllAddrBal") {
+			return
+		}
+		n++
+		byLen, byValue := false, false
+		for _, dc := range an.DomConds(c.Block()) {
+			a := an.Atoms(dc.If.Cond)
+			if a["len"] && (a["field:client/wallet.OneAllAddrBal.unsp"] || a["field:client/wallet.OneAllAddrBal.unspMap"]) {
+				byLen = true
+			}
+			if a["field:client/wallet.OneAllAddrBal.Value"] {
+				byValue = true
+			}
+		}
+		bad := ""
+		switch {
+		case byValue:
+			bad = "an address record is dropped depending on its total: a record whose remaining outputs add up to 0 still lists outputs"
+		case !byLen:
+			bad = "an address record is dropped without a test that it lists no more outputs"
+		}
+		r.Check(bad == "", rule, fmt.Sprintf("drop-when-empty#%d", n), p.Pos(c.Pos()), "dropped when the last listed output is removed", bad)
+	})
+	r.Check(n >= 2, rule, "drop-when-empty/sites", "-", fmt.Sprintf("%d places drop a record", n), fmt.Sprintf("%d places drop a record (expected 2: list and map form)", n))
 }
